@@ -1006,6 +1006,49 @@ func kf1ForkWorld(r *rand.Rand, rep *Report, seed int64) *world {
 	return w
 }
 
+// equivocationWorld / equivocationScript: the Byzantine leader of view 0 sends block A to two correct members and
+// block B to a third (the victim). The two commit A with the Byzantine member's help; the victim, which stored the
+// proposal for B, then receives the genuine COMMIT quorum for A: it must not deliver anything (it holds no proposal
+// for A), in particular not B.
+func equivocationWorld(r *rand.Rand, rep *Report, seed int64) *world {
+	w := &world{r: r, rep: rep, kr: newKeyring(seed), byz: map[uint64]bool{0: true}, byId: map[uint64]*simNode{}, signed: map[string]bool{},
+		proposedBy: map[uint64]uint64{}, validatedBy: map[uint64][]uint64{}, failCommit: map[uint64][]uint64{}, excl: map[uint64][]uint64{}, chain: map[uint64]*aBlock{}, held: map[uint64]bool{}}
+	w.codec = newCodec(w.kr)
+	w.n, w.weights, w.rot = 4, []uint64{1, 1, 1, 1}, 0
+	for _, i := range []uint64{1, 2, 3} {
+		n := w.newNode(i)
+		w.honest = append(w.honest, n)
+		w.byId[i] = n
+	}
+	return w
+}
+func (w *world) equivocationScript() {
+	for _, n := range w.honest {
+		w.sync(n, nil)
+	}
+	a, b := &aBlock{Height: 1, Id: 2999001}, &aBlock{Height: 1, Id: 2999002}
+	pp := func(blk *aBlock) *aMsg {
+		return &aMsg{Kind: "PP", Ref: aRef{1, worldInst, 1, 0, blk.Id}, Snd: aSig{0, true}, Block: blk}
+	}
+	w.inject(w.byId[3], pp(b), "byz-equivocation-minority-block")
+	w.inject(w.byId[1], pp(a), "byz-equivocation")
+	w.inject(w.byId[2], pp(a), "byz-equivocation")
+	w.take(1, "P", 2)
+	w.take(2, "P", 1)
+	w.take(1, "C", 2)
+	w.take(2, "C", 1)
+	for _, id := range []uint64{1, 2} {
+		w.inject(w.byId[id], &aMsg{Kind: "C", Ref: aRef{3, worldInst, 1, 0, a.Id}, Snd: aSig{0, true}, ShareOk: true}, "byz-C")
+	}
+	// the victim now gets the whole COMMIT quorum for A
+	w.take(3, "C", 1)
+	w.take(3, "C", 2)
+	w.inject(w.byId[3], &aMsg{Kind: "C", Ref: aRef{3, worldInst, 1, 0, a.Id}, Snd: aSig{0, true}, ShareOk: true}, "byz-C")
+	// ... and the PREPAREs for A as well
+	w.take(3, "P", 1)
+	w.take(3, "P", 2)
+}
+
 func (w *world) kf1ForkScript() {
 	for _, n := range w.honest {
 		w.sync(n, nil)
